@@ -112,10 +112,21 @@ func verifC06New(f verifkit.F, c *verifkit.Case) *verifC06Machine {
 	if verifC06PanelCache == nil {
 		verifC06PanelCache = verifC06Panel()
 	}
-	m := &verifC06Machine{f: f, c: c, w: vs.NewWorld(state.NewStateStore(nil)), panel: verifC06PanelCache, deleted: map[string]bool{}}
+	m := &verifC06Machine{f: f, c: c, w: vs.NewWorld(verifC06NewStore(f)), panel: verifC06PanelCache, deleted: map[string]bool{}}
 	m.cur = m.eval("initial")
 	m.snap = verifC06TakeSnap(m.w.Store)
 	return m
+}
+
+// verifC06NewStore: a store as a server has it after establishing leadership — the connect CA configuration exists
+// (discovery-chain based lookups such as ServiceTopology refuse to work without one). Server setup, not a history step.
+func verifC06NewStore(f verifkit.F) *state.Store {
+	vs.StubNet()
+	s := state.NewStateStore(nil)
+	if err := s.CASetConfig(5, &structs.CAConfiguration{Provider: "consul", ClusterID: "11111111-2222-3333-4444-555555555555"}); err != nil {
+		f.Fatalf("CASetConfig: %v", err)
+	}
+	return s
 }
 
 func (m *verifC06Machine) eval(when string) []verifC06Eval {
